@@ -11,7 +11,7 @@ import numpy as np
 
 from vf import contracts as K
 from vf.checks.c13 import compositions
-from vf.common import now
+from vf.common import exc_site, now, short_tb
 
 PROPERTY = "C15"
 WORKERS = {"quick": 16, "thorough": 16}
@@ -117,6 +117,10 @@ def run_all(ctx):
                 ctx.tab("plan_len", min(len(plan), 6))
             except Exception as e:
                 ctx.tab("plan_rechunk_raised", type(e).__name__)
+                known = all(not (isinstance(c, float) and c != c) for dim in old + new for c in dim)
+                if known:
+                    # "for every pair of old and new chunkings of the same shape the plan is a finite list ... ending in the new chunking"
+                    ctx.violation("plan_raises", f"plan_rechunk({old}, {new}, itemsize={itemsize}) under {cfg} raised {short_tb(e, 6)}", case={"old": K.enc(old), "new": K.enc(new), "itemsize": itemsize, "config": cfg, "plan_case": True}, mech=f"plan_raises:{type(e).__name__}:{exc_site(e)}")
             try:
                 R.old_to_new(old, new)
                 if r.random() < 0.1:
@@ -156,6 +160,14 @@ def run_all(ctx):
 def replay_case(case, ctx):
     K.install("rechunk")
     R = importlib.import_module("dask_array._rechunk")
+    if case.get("plan_case"):
+        with dask.config.set(case["config"]):
+            try:
+                R.plan_rechunk(K.dec(case["old"]), K.dec(case["new"]), case["itemsize"])
+            except Exception as e:
+                ctx.violation("plan_raises", f"plan_rechunk raised {short_tb(e, 6)}", case=case, mech=f"plan_raises:{type(e).__name__}:{exc_site(e)}")
+        report(ctx)
+        return
     fn, call = case["fn"], case["call"]
     if fn == "plan_rechunk":
         old, new = K.dec(call[0]), K.dec(call[1])
